@@ -41,13 +41,13 @@ type Y struct {
 
 type Ent struct{ K, V *Y }
 
-func Null() *Y            { return &Y{K: KNull} }
-func Bool(b bool) *Y      { return &Y{K: KBool, B: b} }
-func Int(i int64) *Y      { return &Y{K: KInt, I: i} }
-func Float(f float64) *Y  { return &Y{K: KFloat, F: f} }
-func Str(s string) *Y     { return &Y{K: KStr, S: s} }
-func List(xs ...*Y) *Y    { return &Y{K: KList, L: xs} }
-func Map(es ...Ent) *Y    { return &Y{K: KMap, M: es} }
+func Null() *Y             { return &Y{K: KNull} }
+func Bool(b bool) *Y       { return &Y{K: KBool, B: b} }
+func Int(i int64) *Y       { return &Y{K: KInt, I: i} }
+func Float(f float64) *Y   { return &Y{K: KFloat, F: f} }
+func Str(s string) *Y      { return &Y{K: KStr, S: s} }
+func List(xs ...*Y) *Y     { return &Y{K: KList, L: xs} }
+func Map(es ...Ent) *Y     { return &Y{K: KMap, M: es} }
 func E(k string, v *Y) Ent { return Ent{Str(k), v} }
 
 func (y *Y) Clone() *Y {
